@@ -404,6 +404,15 @@ fn cont_props(prop: &str, tier: &str, seed: u64, threads: usize, out: &str) {
                 gen_cont::scc_case(fls[i % 2], &format!("big{i}"), &g, &mut rng, 1)
             });
             extra.insert("large".into(), format!("{nbig} digraphs with 1100-1700 nodes"));
+            // containers over keys with colliding hashes
+            exec::new_section();
+            let nw = if quick { 150 } else { 3000 };
+            spread(&mut ctxs, nw, |i| {
+                let mut rng = Rng::new(seed.wrapping_mul(79).wrapping_add(i as u64));
+                let g = gen_search::random_graph(&mut rng, 9);
+                gen_cont::scc_case(["wdi", "wsdi"][i % 2], &format!("wk{i}"), &g, &mut rng, 3)
+            });
+            extra.insert("weak_hash_keys".into(), format!("{nw} graphs"));
         }
         "C12" => {
             let configs: Vec<(usize, usize)> = if quick { vec![(2, 3), (3, 2)] } else { vec![(2, 4), (3, 4)] };
@@ -498,6 +507,20 @@ fn cont_props(prop: &str, tier: &str, seed: u64, threads: usize, out: &str) {
             extra.insert("mutations".into(), format!("structural: {nseeds} seeds x 4 flavours x 2 formats; random: {nr}"));
         }
         _ => {
+            // containers over keys with colliding hashes (the subset of the requests the w* executor has)
+            exec::new_section();
+            let nw = if quick { 120 } else { 2000 };
+            spread(&mut ctxs, nw, |i| {
+                let mut rng = Rng::new(seed.wrapping_mul(83).wrapping_add(i as u64));
+                let fl = ["wdi", "wsdi", "wun", "wsun"][i % 4];
+                let nk = 2 + rng.below(7);
+                let mut l = gen_cont::cont_history(&mut rng, &fl[1..], &format!("wk{i}"), nk, 80);
+                l[0] = format!("case {fl} wk{i}");
+                let keep = ["new ", "connect ", "disconnect ", "isolate ", "dump", "g.new ", "g.newcap ", "g.insert ", "g.remove ", "g.get ", "g.contains ", "g.len ", "g.is_empty ", "g.to_vec ", "g.iter ", "g.roots ", "g.leaves ", "g.orphans ", "case "];
+                l.retain(|x| keep.iter().any(|k| x.starts_with(k)));
+                l
+            });
+            extra.insert("weak_hash_keys".into(), format!("{nw} container histories"));
             // C18: exhaustive histories over a small alphabet, random histories
             let (len, keys) = if quick { (3usize, 2usize) } else { (4, 2) };
             for fl in &all {
